@@ -301,6 +301,11 @@ def corpus():
                    C("N", False, 1, []), C("Xs", False, 0, [("xs", ("ann", ("list", ("cls", 1)), ("listSize", 1, 2)))])], 0, [2, 3, 4, 5, 1], True),
         gram.Spec([C("A0", True, None), C("Lit", False, 0, [], weight=2),
                    C("Pair", False, 0, [("p", ("tuple", ("cls", 0), "bool"))], weight=1)], 0, [1, 2], True),
+        # windows (IntervalRange: a start and an end with a length between two bounds, inside 0..top): every admissible window
+        gram.Spec([C("A0", True, None), C("Leaf", False, 0, []),
+                   C("Win", False, 0, [("w", ("ann", ("tuple", "int", "int"), ("interval", 1, 3, 6)))])], 0, [1, 2]),
+        gram.Spec([C("A0", True, None), C("Win", False, 0, [("w", ("ann", ("tuple", "int", "int"), ("interval", 0, 2, 3))), ("e", ("cls", 0))]),
+                   C("Leaf", False, 0, [("k", ("ann", "int", ("intRange", 0, 1)))])], 0, [1, 2]),
         # refined leaves
         gram.Spec([C("A0", True, None), C("K", False, 0, [("k", ("ann", "int", ("intRange", 0, 2))), ("s", ("ann", "str", ("varRange", ["x", "y"])))]),
                    C("U", False, 0, [("u", ("union", ("cls", 0), ("ann", "int", ("intList", [7, 9]))))])], 0, [1, 2]),
